@@ -604,14 +604,22 @@ def gens_copy(g):
     return cm.copy_exact(g)
 
 
+RUNAWAY_CAP = 60000      # the largest shipped enumeration (Diels-Alder, negative mode) has 12875 results
+
+
 def _iterate(p, base_next):
     graphs, status = [], "done"
     try:
         while True:
             try:
-                graphs.append(base_next(p))
+                x = base_next(p)
             except StopIteration:
                 break
+            if x is None or len(graphs) >= RUNAWAY_CAP:
+                # no graph where the iteration should have ended or yielded one / an iteration that never ends: an
+                # outcome the model has no counterpart for (nothing agrees); nothing is accumulated beyond this point
+                return [], ("NotAGraph" if x is None else "Runaway"), True
+            graphs.append(x)
     except RuntimeError as e:
         status = "RuntimeError"
     except ValueError as e:
@@ -676,6 +684,8 @@ def _drive(p, drv):
         except StopIteration:
             pass
         for x in p:            # like list(p), but what was yielded before an exception is kept
+            if x is None or len(items) >= RUNAWAY_CAP:
+                return [], ("NotAGraph" if x is None else "Runaway"), True
             items.append(x)
     except (RuntimeError, ValueError, IndexError, KeyError, TypeError) as e:
         status = _status_of(e)
@@ -700,7 +710,11 @@ def _alternate(cfg, cls, parser):
         for i in (0, 1):
             if live[i]:
                 try:
-                    outs[i].append(next(ps[i]))
+                    x = next(ps[i])
+                    if x is None or len(outs[i]) >= RUNAWAY_CAP:
+                        outs[i], status[i], live[i] = [], ("NotAGraph" if x is None else "Runaway"), False
+                    else:
+                        outs[i].append(x)
                 except StopIteration:
                     live[i] = False
                 except (RuntimeError, ValueError, IndexError, KeyError) as e:
